@@ -160,3 +160,21 @@ func (db *DB) VerifC10RawSnapshot(id order.BatchID) []byte {
 	})
 	return res
 }
+
+// VerifC10RawPendingOrder returns the raw values of an order staged in the
+// pending-batch orders bucket.
+func (db *DB) VerifC10RawPendingOrder(nonce order.Nonce) (base, minUnits, tlvData, tier []byte, ok bool) {
+	_ = db.View(func(tx *bbolt.Tx) error {
+		bucket, err := getBucket(tx, batchBucketKey)
+		if err != nil {
+			return err
+		}
+		pending := bucket.Bucket(pendingBatchOrdersBucketKey)
+		if pending == nil {
+			return nil
+		}
+		base, minUnits, tlvData, tier, ok = verifC10RawOrderIn(pending, nonce)
+		return nil
+	})
+	return
+}
